@@ -211,6 +211,11 @@ impl Variables {
             .sum()
     }
 
+    #[cfg(feature = "verif")]
+    pub fn verif_entries(&self) -> impl Iterator<Item = (&Name, &Variant)> {
+        self.map.entries().map(|(k, v)| (k, &v.value))
+    }
+
     pub fn array_names(&self) -> impl Iterator<Item = &Name> {
         self.map
             .entries()
